@@ -57,6 +57,60 @@ def run(ctx: Ctx):
     def key_of(ev, clause):
         return {"clause": clause, "op": ev["op"]}
 
+    # the tail of a zone is computed from yearly rules with the calendar's (shared, cached) year arithmetic: two threads asking
+    # one zone about years that share a year-cache slot, under TLC-simulated schedules (YearStartCache.tla) enforced line by
+    # line in the calculator; every answer must be the interval the zone gives when asked alone
+    import threading
+
+    from harness.props import c13
+    from harness.sched import LineScheduler
+    from pyoda_time import CalendarSystem, DateTimeZoneProviders, Instant
+    from pyoda_time.time_zones._cached_date_time_zone import _CachedDateTimeZone
+
+    cfg = c13.YSC.format(threads="t1, t2", keys="0, 1, 2, 3, 4, 5, 6, 7", nops=2, view="", invs="")
+    behs = c13._behaviours(ctx, "MC_YearStartCache", cfg, 24 if q else 240, 40, ctx.seed + 41, "ysc_zone")
+    tz = DateTimeZoneProviders.tzdb
+    tail_ids = ["Europe/London", "America/New_York", "Australia/Sydney", "Pacific/Auckland", "America/Havana", "Asia/Jerusalem", "Europe/Chisinau"]
+    calc = CalendarSystem.iso._year_month_day_calculator
+    tev = [{"op": "zone", "id": "(threads)", "min_off": -64800, "max_off": 64800}]
+    for b in behs:
+        prog, sched = b["prog"], b["sched"]
+        names = sorted(prog)
+        inner = getattr(tz[rnd.choice(tail_ids)], "_CachedDateTimeZone__time_zone", None)
+        if inner is None:
+            continue
+        fresh = _CachedDateTimeZone._for_zone(inner)
+        base = rnd.randint(2150, 2600)
+        imap = {k: Instant.from_utc(base + (k % 2) + 1024 * (k // 2), rnd.randint(1, 12), rnd.randint(1, 28), rnd.randint(0, 23), 0) for k in range(8)}
+        results = []
+        lock = threading.Lock()
+
+        def body(tn, fresh=fresh, prog=prog, imap=imap, results=results, lock=lock):
+            def fn(s):
+                for k in prog[tn]:
+                    t = imap[k]
+                    try:
+                        v = fresh.get_zone_interval(t)
+                    except Exception as ex:  # noqa: BLE001
+                        v = ex
+                    with lock:
+                        results.append((t, v))
+            return fn
+
+        def scheduled(names=names, sched=sched, body=body):
+            sch = LineScheduler(("pyoda_time/calendars/_year_month_day_calculator.py",), stall_s=0.02)
+            sch.run([body(tn) for tn in names], [names.index(t) for t in sched if t in names])
+
+        c13.cold(calc, scheduled)
+        for t, v in results:
+            if isinstance(v, Exception):
+                tev.append({"op": "iv_exc", "at": zonewalk.t3i(t), "exc": type(v).__name__})
+                continue
+            want = c13.cold(calc, lambda t=t: _CachedDateTimeZone._for_zone(inner).get_zone_interval(t))
+            tev.append({"op": "requery", "at": zonewalk.t3i(t), "start": zonewalk.t3i(v._raw_start), "end": zonewalk.t3i(v._raw_end),
+                        "wall": v.wall_offset.seconds, "same_as_walk": v == want, "offset_agrees": v.wall_offset == want.wall_offset, "threads": True})
+    shards.append(tev)
+
     rej = ctx.validate("Trace_Zone", TRACE_CFG, None, shards=shards, key_of=key_of, ntraces=len(tasks), heap="4g")
     # name the zone of each reject (the last zone event before it in its shard)
     for r in rej:
